@@ -673,11 +673,13 @@ func (obj *SparseFloat32Matrix) JointIterator(b ConstMatrix) MatrixJointIterator
 }
 func (obj *SparseFloat32Matrix) ITERATOR() *SparseFloat32MatrixIterator {
   r := SparseFloat32MatrixIterator{*obj.values.ITERATOR(), obj}
+  r.skip()
   return &r
 }
 func (obj *SparseFloat32Matrix) ITERATOR_FROM(i, j int) *SparseFloat32MatrixIterator {
   k := obj.index(i, j)
   r := SparseFloat32MatrixIterator{*obj.values.ITERATOR_FROM(k), obj}
+  r.skip()
   return &r
 }
 func (obj *SparseFloat32Matrix) JOINT_ITERATOR(b ConstMatrix) *SparseFloat32MatrixJointIterator {
@@ -698,6 +700,21 @@ type SparseFloat32MatrixIterator struct {
 }
 func (obj *SparseFloat32MatrixIterator) Index() (int, int) {
   return obj.m.ij(obj.SparseFloat32VectorIterator.Index())
+}
+func (obj *SparseFloat32MatrixIterator) Next() {
+  obj.SparseFloat32VectorIterator.Next()
+  obj.skip()
+}
+// skip elements of the underlying storage that are not
+// part of this matrix (i.e. if the matrix is a slice)
+func (obj *SparseFloat32MatrixIterator) skip() {
+  for obj.Ok() {
+    i, j := obj.Index()
+    if i >= 0 && i < obj.m.rows && j >= 0 && j < obj.m.cols {
+      break
+    }
+    obj.SparseFloat32VectorIterator.Next()
+  }
 }
 func (obj *SparseFloat32MatrixIterator) Clone() *SparseFloat32MatrixIterator {
   return &SparseFloat32MatrixIterator{*obj.SparseFloat32VectorIterator.Clone(), obj.m}
